@@ -162,12 +162,13 @@ impl PrettyParseError {
             )
         };
         let err_string = format!(
-            "{err}\n{arrow}{position}\n{pipe}\n{pipe}{the_line}\n{pipe}{caret:>caret_offset$}\n",
+            "{err}\n{arrow}{position}\n{pipe}\n{pipe}{the_line}\n{pipe}{padding}{caret}\n",
             err = err.specifics.to_string().bold().white(),
             position = position,
             the_line = the_line.trim_end(),
+            // (not a `{:>width$}`: a runtime width above 65535 makes format! panic)
+            padding = " ".repeat(character_position),
             caret = "^".bold().red(),
-            caret_offset = character_position + 1,
             arrow = "--> ".bold().blue(),
             pipe = " |  ".bold().blue(),
         );
